@@ -84,7 +84,7 @@ class Prop(BaseProp):
             return wrapped % w, wrapped % core
         b = Builder(rng, p_doc=0.5, max_depth=3, mkparam=mkparam, name_forms=True, trigger=trig, p_trigger=0.3,
                     kinds=["function", "macro", "function", "macro", "cpa", "cpa", "block", "ct_add_test", "cpp_class",
-                           "plain", "set", "generic"], max_items=7, compound_generic=False, p_clone=0.06, clone_toggle_doc=True)
+                           "plain", "set", "generic", "nested_defs", "nested_defs", "twin_defs"], max_items=7, compound_generic=False, p_clone=0.06, clone_toggle_doc=True)
         # names the pattern also matches: prefix the generated name
         mod = b.module()
         for it in mod.walk():
